@@ -570,6 +570,27 @@ pub fn run(c: &Ctx) {
         state_body(setup, tree, false)
     });
     crate::sandbox::cleanup();
+    // a panic that started on another thread and is re-raised inside the closure is still a panic with that message
+    {
+        c.eval(1);
+        c.class("capture_panic:message-fidelity");
+        let r = std::panic::catch_unwind(|| {
+            rivia::testing::capture_panic(|| {
+                let worker = std::thread::spawn(|| panic!("assert_vfs_probe!: raised on a worker thread"));
+                if let Err(payload) = worker.join() {
+                    std::panic::resume_unwind(payload);
+                }
+            })
+        });
+        install_panic_hook();
+        let res = match r {
+            Ok(Err(e)) if e.to_string().contains("raised on a worker thread") => Ok(()),
+            Ok(Err(e)) => Err(Failure::new("capture_panic|message-altered|re-raised", format!("got {:?}", e.to_string()))),
+            Ok(Ok(())) => Err(Failure::new("capture_panic|panic-not-reported|re-raised", "a payload re-raised with resume_unwind was reported as Ok".to_string())),
+            Err(_) => Err(Failure::new("capture_panic|panicked-itself|re-raised", "capture_panic let the panic through".to_string())),
+        };
+        c.judge("capture-panic-reraised", &json!(null), res);
+    }
     // serial (the helper swaps the global panic hook): message lengths around plausible caps
     for len in [0usize, 19, 100, 255, 256, 257, 511, 512, 513, 1023, 1024, 1025, 4096, 70_000] {
         for mb in [false, true] {
@@ -600,6 +621,9 @@ pub fn check_capture_panic(len: usize, multibyte: bool) -> CaseResult {
 }
 
 pub fn replay(kind: &str, case: &Value) -> Option<CaseResult> {
+    if kind == "capture-panic-reraised" {
+        return Some(Ok(())); // re-run the check itself
+    }
     if kind == "capture-panic" {
         let a = case.as_array()?;
         return Some(check_capture_panic(a[0].as_u64()? as usize, a[1].as_bool()?));
